@@ -243,7 +243,12 @@ def confirm(chk, bad, prop):
                 res, out = replay.run_script('\n'.join(['mode runner'] + lines) + '\n', path, timeout=60)
                 chk.replays += 1
                 n += 1
-                if res is None or res.get('timeout'):
+                if res is not None and res.get('timeout'):
+                    # the stream never ended: with an eager in-memory parser every run of this grid ends within milliseconds
+                    devs.append(('%s: the real runner did not end its event stream (watchdog) - no ParsingFinished / run-Finished' % name, path))
+                    chk.replay_files.append(path)
+                    continue
+                if res is None:
                     fails.append((name, out[-200:]))
                     continue
                 evs = [ln[7:].rsplit(' t=', 1)[0] for ln in out.splitlines() if ln.startswith('LOG EV ')]
